@@ -659,13 +659,12 @@ impl BinArchive {
         if address >= self.data.len() {
             return Ok(());
         }
-        let range = address..self.data.len();
-        self.data.drain(range.clone());
-        for i in range.step_by(4) {
-            self.text.remove(&i);
-            self.labels.remove(&i);
-            self.pointers.remove(&i);
-        }
+        self.data.truncate(address);
+        // Drop everything located at or beyond the cut, whatever its alignment
+        // (labels may sit on any byte and on the old end of the data).
+        self.text.retain(|location, _| *location < address);
+        self.labels.retain(|location, _| *location < address);
+        self.pointers.retain(|location, _| *location < address);
         Ok(())
     }
 
